@@ -364,11 +364,14 @@ def gen_C02(rng, tier):
         recv = rand_leaf(rng) if rng.random() < 0.6 else ([], [rng.choice([F(0), F(1), None])])
         c = rng.choice(SIDES)
         prog = [leaf_stmt(0, recv, c)]
+        qpts = leaf_points(recv, [F(0), F(1), F(2), F(3), F(1, 2), F(5, 2)])
         for _ in range(rng.randint(1, 6)):
+            if rng.random() < 0.35:          # evaluation before and between the calls, not only at the end
+                prog.append(rng.choice([C.query(0, "sample", xs=qpts), C.query(0, "limit", side=rng.choice(["left", "right"]), xs=qpts)]))
             prog.append(rand_layer_call(rng, 0))
             if rng.random() < 0.2:
                 prog.append(C.read(0, rng.choice(["values", "deltas", "frame"])))
-        prog += observe_all(0, leaf_points(recv, [F(0), F(1), F(2), F(3), F(1, 2), F(5, 2)]))
+        prog += observe_all(0, qpts)
         cases.append(mk(f"C02/rand/{k}", prog, flav(rng, has_nan(recv)), tags=["history"]))
     return cases
 
@@ -753,10 +756,15 @@ def gen_C13(rng, tier):
     return cases
 
 
-STAT_Q = ["integral", "mean", "var", "min", "max", "value_sums", "ecdf", "percentile", "fractile", "median", "mode", "hist"]
+STAT_Q = ["integral", "mean", "var", "min", "max", "value_sums", "ecdf", "percentile", "fractile", "median", "mode", "hist",
+          "sample", "limit"]
 
 
 def stat_query(rng, r, kind):
+    if kind == "sample":
+        return C.query(r, "sample", xs=[F(-1), F(0), F(1, 2), F(1), F(2), F(3), F(4), F(5)])
+    if kind == "limit":
+        return C.query(r, "limit", side=rng.choice(["left", "right"]), xs=[F(-1), F(0), F(1, 2), F(1), F(2), F(3), F(4), F(5)])
     if kind == "ecdf":
         return C.query(r, "ecdf", side=rng.choice(["left", "right"]), ys=[F(0), F(1), F(2), F(1, 2)])
     if kind == "percentile":
